@@ -418,6 +418,20 @@ theorem wf_applyMerge (g : G) (ps : Props) (row : Row) (p : NPat) (oc om : List 
       cases he
       exact wf_applySet _ _ _ _ _ (wf_addNode g _ _ h) h1
 
+theorem wf_applyMergeRel (g : G) (ps : Props) (row : Row) (a : NPat) (ty : Nat) (b : NPat)
+    (out : G × Row) (h : WF g) (he : applyMergeRel g ps row a ty b = .ok out) : WF out.1 := by
+  unfold applyMergeRel at he
+  obtain ⟨ra, _, he⟩ := bind_ok he
+  obtain ⟨rb, _, he⟩ := bind_ok he
+  split at he
+  · cases he
+  · dsimp only at he
+    split at he
+    · cases he; exact h
+    · obtain ⟨⟨g3, rid⟩, h3, he⟩ := bind_ok he
+      cases he
+      exact wf_addRel _ _ _ _ _ _ _ (wf_addNode _ _ _ (wf_addNode g _ _ h)) h3
+
 theorem wf_applyWrite (del : G → Bool → Nat → R G) (hd : DelOK del) (ps : Props) (c : Clause)
     (g : G) (row : Row) (out : G × Row) (h : WF g)
     (he : applyWrite del ps c g row = .ok out) : WF out.1 := by
@@ -426,6 +440,7 @@ theorem wf_applyWrite (del : G → Bool → Nat → R G) (hd : DelOK del) (ps : 
   · exact foldR_inv (fun (a : G × Row) => WF a.1) (createPath g ps row)
       (fun s x s' hs hx => wf_createPath g ps row s s' x hs hx) _ (g, row) out h he
   · exact wf_applyMerge _ _ _ _ _ _ _ h he
+  · exact wf_applyMergeRel _ _ _ _ _ _ _ h he
   · obtain ⟨g1, h1, he⟩ := bind_ok he
     cases he
     exact wf_applySet _ _ _ _ _ h h1
